@@ -127,6 +127,14 @@ CHECKS = {
              "defaults in every record of multi-record texts; write_union_type=False must equal the plain projection. Three open "
              "defects of the JSON codec are reported as KNOWN-FINDING only when their trigger is present and the neutralised case passes.",
         ref="DESIGN.md §4 C15"),
+    "C12": dict(
+        cat="exploration", tech="runtime monitoring: metamorphic comparison of every public operation across raw / parsed / piecewise-parsed forms; fresh-interpreter re-reads",
+        text="For every generated schema and every subset (all 2^k, k<=4) of its separable named types the three forms are built "
+             "and every public operation (binary, container, JSON, validate, canonical form, fingerprint, seeded generation) is "
+             "observed under each; the observations (bytes, values, text, exception class) must coincide; parse_schema(parsed) "
+             "must be the same object; a sample of container files is re-read in a fresh interpreter from the bytes alone. One open "
+             "finding (piecewise non-record top level) is attributed only by counterfactual re-test.",
+        ref="DESIGN.md §4 C12"),
 }
 
 NOT_YET = "check not built yet in this session (see DESIGN.md §8 build order)"
